@@ -157,7 +157,7 @@ End Udp.
 Definition w0 (fail : option N) : wst := {| w_log := []; w_cnt := 0; w_fail := fail; w_bytes := 0 |}.
 Definition ust0 (s : list byte) (cuts : list nat) (e : N) (wd : bool) (fail : option N) : ust :=
   {| s_buf := []; s_pend := []; s_w := w0 fail;
-     s_t := {| t_rd := {| rest := s; cuts := cuts; endk := e |}; t_wd := wd |}; s_err := 0 |}.
+     s_t := {| t_rd := {| rest := s; cuts := cuts; endk := e; carry := false |}; t_wd := wd |}; s_err := 0 |}.
 
 (* ======================================================================================== *)
 (*  UDP, UDP -> tunnel direction (first goroutine of func UDP): batching writer             *)
@@ -363,7 +363,7 @@ End Tcp.
 
 (* dirw: the direction whose source sends s and whose DESTINATION is wrapped as cfg *)
 Definition dirw (s : list byte) (cuts : list nat) (e : N) (wd : bool) (wl : option N) (ws : bool) (cfg : wcfg) : dirst :=
-  {| d_rd := {| t_rd := {| rest := s; cuts := cuts; endk := e |}; t_wd := wd |}; d_out := [];
+  {| d_rd := {| t_rd := {| rest := s; cuts := cuts; endk := e; carry := false |}; t_wd := wd |}; d_out := [];
      d_wlimit := wl; d_wshort := ws; d_cfg := cfg; d_cw := 0; d_cwf := 0; d_bytes := 0; d_err := 0 |}.
 Definition dir0 (s : list byte) (cuts : list nat) (e : N) (wd : bool) (wl : option N) (ws : bool) : dirst :=
   dirw s cuts e wd wl ws cfg_direct.
